@@ -1,6 +1,7 @@
 package main
 
 import (
+	"go/constant"
 	"go/token"
 	"go/types"
 	"strings"
@@ -725,6 +726,122 @@ func reachesFn(a *Analyzer, f *ssa.Function, target string, seen map[*ssa.Functi
 }
 
 // selectArmBlock: the block executed when the select's chosen index equals idx.
+// cancelProbe: g is `select { case <-param: return true; default: return false }`; returns the parameter index.
+func cancelProbe(g *ssa.Function) (int, bool) {
+	if g == nil || g.Blocks == nil {
+		return 0, false
+	}
+	var sel *ssa.Select
+	for _, b := range g.Blocks {
+		for _, in := range b.Instrs {
+			if s, ok := in.(*ssa.Select); ok {
+				if sel != nil {
+					return 0, false
+				}
+				sel = s
+			}
+		}
+	}
+	if sel == nil || sel.Blocking || len(sel.States) != 1 || sel.States[0].Dir != types.RecvOnly || !isStructChan(sel.States[0].Chan) {
+		return 0, false
+	}
+	pidx := -1
+	for i, p := range g.Params {
+		if ssa.Value(p) == sel.States[0].Chan {
+			pidx = i
+		}
+	}
+	arm := selectArmBlock(sel, 0)
+	if pidx < 0 || arm == nil {
+		return 0, false
+	}
+	reach := reachableFrom(arm)
+	nRet := 0
+	for _, b := range g.Blocks {
+		ret, ok := b.Instrs[len(b.Instrs)-1].(*ssa.Return)
+		if !ok {
+			continue
+		}
+		nRet++
+		if len(ret.Results) != 1 {
+			return 0, false
+		}
+		k, ok := ret.Results[0].(*ssa.Const)
+		if !ok || k.Value == nil || k.Value.Kind() != constant.Bool {
+			return 0, false
+		}
+		if constant.BoolVal(k.Value) != reach[b] {
+			return 0, false
+		}
+	}
+	return pidx, nRet >= 2
+}
+
+// sameCancelChan: the probe's only receive is on the channel of the send select's cancel arm.
+func sameCancelChan(probe, send *ssa.Select) bool {
+	for _, st := range send.States {
+		if st.Dir == types.RecvOnly && isStructChan(st.Chan) && probe.States[0].Dir == types.RecvOnly && probe.States[0].Chan == st.Chan {
+			return true
+		}
+	}
+	return false
+}
+
+func reachableFrom(from *ssa.BasicBlock) map[*ssa.BasicBlock]bool {
+	reach := map[*ssa.BasicBlock]bool{}
+	stack := []*ssa.BasicBlock{from}
+	for len(stack) > 0 {
+		n := stack[len(stack)-1]
+		stack = stack[:len(stack)-1]
+		if reach[n] {
+			continue
+		}
+		reach[n] = true
+		stack = append(stack, n.Succs...)
+	}
+	return reach
+}
+
+// probeGuardsSend: an If on a cancel probe of the send's own cancel channel dominates the send, and its "cancelled"
+// branch never reaches the send.
+func probeGuardsSend(te *ssa.Function, send *ssa.Select) bool {
+	var cancelCh ssa.Value
+	for _, st := range send.States {
+		if st.Dir == types.RecvOnly && isStructChan(st.Chan) {
+			cancelCh = st.Chan
+		}
+	}
+	if cancelCh == nil {
+		return false
+	}
+	for _, b := range te.Blocks {
+		ifi, ok := b.Instrs[len(b.Instrs)-1].(*ssa.If)
+		if !ok || !b.Dominates(send.Block()) || b == send.Block() {
+			continue
+		}
+		cond, neg := ifi.Cond, false
+		if u, ok := cond.(*ssa.UnOp); ok && u.Op == token.NOT {
+			cond, neg = u.X, true
+		}
+		call, ok := cond.(*ssa.Call)
+		if !ok {
+			continue
+		}
+		pidx, ok := cancelProbe(call.Call.StaticCallee())
+		if !ok || pidx >= len(call.Call.Args) || call.Call.Args[pidx] != cancelCh {
+			continue
+		}
+		cancelled := b.Succs[0]
+		if neg {
+			cancelled = b.Succs[1]
+		}
+		if !reachableFrom(cancelled)[send.Block()] {
+			return true
+		}
+	}
+	return false
+}
+
 func selectArmBlock(sel *ssa.Select, idx int) *ssa.BasicBlock {
 	var index ssa.Value
 	for _, ref := range *sel.Referrers() {
@@ -923,7 +1040,7 @@ func runTimer(a *Analyzer, r *Results) {
 	if pre && len(sends) == 1 {
 		for _, b := range te.Blocks {
 			for _, in := range b.Instrs {
-				if sel, ok := in.(*ssa.Select); ok && !sel.Blocking && sel.Block().Dominates(sends[0].Block()) {
+				if sel, ok := in.(*ssa.Select); ok && !sel.Blocking && sel.Block().Dominates(sends[0].Block()) && len(sel.States) == 1 && sameCancelChan(sel, sends[0]) {
 					arm := selectArmBlock(sel, 0)
 					if arm != nil {
 						// the cancelled arm returns without reaching the send
@@ -945,6 +1062,10 @@ func runTimer(a *Analyzer, r *Results) {
 				}
 			}
 		}
+	}
+	if !okPre && len(sends) == 1 {
+		// the same check behind a boolean probe: if cancelled(ch) { return }
+		okPre = probeGuardsSend(te, sends[0])
 	}
 	r.Check("T7", props("C19"), "before sending, the timer goroutine checks the cancel channel without blocking and gives up if the registration was already cancelled (a trigger of a stopped or replaced registration is not delivered even when a reader is waiting)", "triggerElections", a.P.Pos(te.Pos()), okPre, "no dominating non-blocking cancel check that skips the send", "X")
 	// T6b: the trigger's Hv is built from the function's own parameters
